@@ -54,6 +54,12 @@ type Choices struct {
 	StreamKwEOL int
 	// EndstreamEOL: 0 LF, 1 CR, 2 CR LF before endstream.
 	EndstreamEOL int
+	// EndstreamNoEOL writes no end-of-line marker before endstream (the
+	// marker is only recommended, ISO 32000-1 7.3.8.1) - but only for streams
+	// whose /Length is right (direct or indirect): without the marker only
+	// the length delimits the data.  Not drawn by PickChoices (strict's
+	// WellFormed reports such streams under "endstream-eol"): set it yourself.
+	EndstreamNoEOL bool
 	// Order of the objects of a revision: 0 ascending, 1 descending, 2 shuffled.
 	Order int
 	// XRefStmFirst writes the /XRefStm stream of a hybrid revision before the
@@ -335,7 +341,7 @@ func (r *renderer) footer() {
 }
 
 // writeStream writes dict, stream keyword, data, endstream.
-func (r *renderer) writeStream(d obj.Dict, raw []byte) {
+func (r *renderer) writeStream(d obj.Dict, raw []byte, lengthRight bool) {
 	w := r.w
 	w.dict(d, nil)
 	w.tokSep(true)
@@ -366,7 +372,9 @@ func (r *renderer) writeStream(d obj.Dict, raw []byte) {
 		}
 	}
 	w.buf.Write(raw)
-	w.buf.WriteString([]string{"\n", "\r", "\r\n"}[r.c.EndstreamEOL])
+	if !(r.c.EndstreamNoEOL && lengthRight) {
+		w.buf.WriteString([]string{"\n", "\r", "\r\n"}[r.c.EndstreamEOL])
+	}
 	w.buf.WriteString("endstream")
 }
 
@@ -376,7 +384,7 @@ func (r *renderer) writePhys(p *phys) {
 	r.cur[p.ref.Num].off = at - int64(r.base)
 	switch {
 	case p.raw != nil:
-		r.writeStream(p.dict, p.raw)
+		r.writeStream(p.dict, p.raw, true)
 	default:
 		if st, ok := p.value.(*obj.Stream); ok {
 			d := obj.Dict{}
@@ -408,7 +416,7 @@ func (r *renderer) writePhys(p *phys) {
 			case LenNegative:
 				d["Length"] = obj.Int(-1 - r.rng.Intn(40))
 			}
-			r.writeStream(d, raw)
+			r.writeStream(d, raw, mode == LenDirect || mode == LenIndirect)
 		} else {
 			r.w.value(r.encStrings(p.ref, p.value))
 		}
@@ -1049,7 +1057,7 @@ func (r *renderer) revision(rev *Revision) error {
 		r.res.Placed = append(r.res.Placed, Placed{Ref: ref, Revision: r.revNo, Offset: at, Idx: -1, DataOffset: -1})
 		d, data := r.xrefStream(nums, first, extra)
 		r.cur[xsNum].Value = &obj.Stream{Dict: withoutLength(d), Raw: data}
-		r.writeStream(d, data)
+		r.writeStream(d, data, true)
 		r.footer()
 		return at - int64(r.base)
 	}
